@@ -16,7 +16,7 @@ use vbase::{ensure, fail};
 
 use crate::family::{Adjacent, Deny, Enums, External, Flat, Internal, Nested, Plain, Tree, Untagged, WithOpt};
 
-pub const RULE: &str = "cases are byte strings: generated well-formed documents, one or two random mutations of them, random bytes and token soup, every truncation / substitution / deletion of a document set, an alignment sweep (short documents padded to every total length 1..=200 at offsets 0..=64), and a depth sweep (nesting 1..=300, 1000, 10^4, 10^5, 10^6 of arrays, objects, alternating, closed and unclosed). Each input is handed to every safe entry point (from_slice/from_str/from_reader for Value, Option<Value>, structs, LazyValue, OwnedLazyValue, RawNumber, Number, strings, numbers, containers, enums, serde_json::Value, IgnoredAny; Deserializer::from_json over &str/&[u8]/&String/&Bytes/&FastStr with repeated deserialize, into_stream, use_rawnumber, utf8_lossy; get/get_from_*/get_many/get_by_schema with fixed path sets; both lazy iterators and LazyValue::into_*_iter; on every Ok the accessor set, to_string, to_string_pretty, Display, Debug, conversions LazyValue -> OwnedLazyValue -> Value; on every Err Display, Debug, offset/line/column/classify; owned results — Value, structs/Vec/maps of Value, later stream documents, OwnedLazyValue, get_by_schema, in default, raw-number and lossy mode — are also parsed from a private mapping that is unmapped before the result is read, cloned and serialized, so a pointer kept into the caller's input faults). The input buffer is placed on the heap, ending exactly at a PROT_NONE guard page, or starting right after one. Violations: a panic (caught, with payload), a fatal signal (SIGSEGV incl. stack overflow, SIGABRT, SIGBUS — captured by a signal handler that writes the replay file), a double free or write after free seen by the quarantine allocator, or allocations left behind by the second of two identical runs (leak). Non-trivial = input of length >= 2 of which at least one entry point consumed >= 2 bytes (Ok, or an error with offset >= 1); distinct by input bytes.";
+pub const RULE: &str = "cases are byte strings: generated well-formed documents, one or two random mutations of them, random bytes and token soup, every truncation / substitution / deletion of a document set, an alignment sweep (short documents padded to every total length 1..=200 at offsets 0..=64), and a depth sweep (nesting 1..=300, 1000, 10^4, 10^5, 10^6 of arrays, objects, alternating, closed and unclosed). Each input is handed to every safe entry point (from_slice/from_str/from_reader for Value, Option<Value>, structs, LazyValue, OwnedLazyValue, RawNumber, Number, strings, numbers, containers, enums, serde_json::Value, IgnoredAny; Deserializer::from_json over &str/&[u8]/&String/&Bytes/&FastStr with repeated deserialize, into_stream, use_rawnumber, utf8_lossy; get/get_from_*/get_many/get_by_schema with fixed path sets; both lazy iterators and LazyValue::into_*_iter; on every Ok the accessor set, to_string, to_string_pretty, Display, Debug, conversions LazyValue -> OwnedLazyValue -> Value; on every Err Display, Debug, offset/line/column/classify; owned results — Value, structs/Vec/maps of Value, later stream documents, OwnedLazyValue, get_by_schema, in default, raw-number and lossy mode — are also parsed from a private mapping that is unmapped before the result is read, cloned and serialized, so a pointer kept into the caller's input faults; borrowed results (&str, Cow<str>, borrowed LazyValue fields, keys and values of the lazy object iterators over every carrier and of LazyValue::into_object_iter) are read again after the reader / iterator that produced them was dropped and must not have changed). The input buffer is placed on the heap, ending exactly at a PROT_NONE guard page, or starting right after one. Violations: a panic (caught, with payload), a fatal signal (SIGSEGV incl. stack overflow, SIGABRT, SIGBUS — captured by a signal handler that writes the replay file), a double free or write after free seen by the quarantine allocator, or allocations left behind by the second of two identical runs (leak). Non-trivial = input of length >= 2 of which at least one entry point consumed >= 2 bytes (Ok, or an error with offset >= 1); distinct by input bytes.";
 pub const ASSUMPTIONS: &[&str] = &["unsafe *_unchecked functions are not part of C01's entry points", "the depth sweep runs on threads with Rust's default 2 MiB stack; bounded stack means bounded independently of the nesting depth", "thorough tier: libFuzzer + AddressSanitizer + LeakSanitizer over the same entry-point table"];
 
 #[derive(Deserialize)]
@@ -365,6 +365,56 @@ pub fn exercise_opts(input: &[u8], deep: bool, with_detached: bool) -> bool {
                 use_value(&v, 1);
                 let _ = sonic_rs::to_string(&v).map(|s| s.len());
             }
+        }
+    }
+    // ---- borrowed results outlive the reader / iterator that produced them (their lifetime is the
+    // input's): read them again after the producer is gone and fresh allocations were made
+    if !deep {
+        let by = Bytes::copy_from_slice(input);
+        let fs = std::str::from_utf8(input).ok().map(FastStr::new);
+        fn keys_live<'a>(it: impl Iterator<Item = sonic_rs::Result<(std::borrow::Cow<'a, str>, LazyValue<'a>)>>) -> Vec<(Vec<u8>, Vec<u8>)> {
+            it.take(64).filter_map(|r| r.ok()).map(|(k, v)| (k.as_bytes().to_vec(), v.as_raw_str().as_bytes().to_vec())).collect()
+        }
+        fn keys_late<'a>(it: impl Iterator<Item = sonic_rs::Result<(std::borrow::Cow<'a, str>, LazyValue<'a>)>>) -> Vec<(Vec<u8>, Vec<u8>)> {
+            let items: Vec<_> = it.take(64).collect(); // the iterator is dropped here
+            let junk: Vec<Box<[u8; 48]>> = (0..4).map(|i| Box::new([0xA0 + i as u8; 48])).collect();
+            let r = items.into_iter().filter_map(|r| r.ok()).map(|(k, v)| (k.as_bytes().to_vec(), v.as_raw_str().as_bytes().to_vec())).collect();
+            drop(junk);
+            r
+        }
+        assert!(keys_live(sonic_rs::to_object_iter(&by)) == keys_late(sonic_rs::to_object_iter(&by)), "dangling borrow: items of to_object_iter(&Bytes) change after the iterator is dropped");
+        assert!(keys_live(sonic_rs::to_object_iter(input)) == keys_late(sonic_rs::to_object_iter(input)), "dangling borrow: items of to_object_iter(&[u8]) change after the iterator is dropped");
+        if let Some(fs) = &fs {
+            assert!(keys_live(sonic_rs::to_object_iter(fs)) == keys_late(sonic_rs::to_object_iter(fs)), "dangling borrow: items of to_object_iter(&FastStr) change after the iterator is dropped");
+            let string = fs.to_string();
+            assert!(keys_live(sonic_rs::to_object_iter(&string)) == keys_late(sonic_rs::to_object_iter(&string)), "dangling borrow: items of to_object_iter(&String) change after the iterator is dropped");
+            for lazy_src in 0..2 {
+                let mk = || -> Option<LazyValue> { if lazy_src == 0 { sonic_rs::get(fs, &[] as &[&str]).ok() } else { sonic_rs::get_from_bytes(&by, &[] as &[&str]).ok() } };
+                if let (Some(a), Some(b)) = (mk().and_then(|l| l.into_object_iter()), mk().and_then(|l| l.into_object_iter())) {
+                    assert!(keys_live(a) == keys_late(b), "dangling borrow: items of LazyValue::into_object_iter change after the iterator is dropped");
+                }
+            }
+            // &str / Cow<str> / LazyValue borrowed through a Deserializer over an owning carrier
+            let live: Option<Vec<u8>> = Deserializer::from_json(fs).deserialize::<&str>().ok().map(|s| s.as_bytes().to_vec());
+            let late: Option<&str> = {
+                let mut d = Deserializer::from_json(fs);
+                d.deserialize::<&str>().ok()
+            };
+            let junk: Vec<Box<[u8; 40]>> = (0..4).map(|i| Box::new([0xB0 + i as u8; 40])).collect();
+            assert!(live.as_deref() == late.map(|s| s.as_bytes()), "dangling borrow: &str from Deserializer::from_json(&FastStr) changes after the deserializer is dropped");
+            let late: Option<std::borrow::Cow<str>> = {
+                let mut d = Deserializer::from_json(&by);
+                d.deserialize::<std::borrow::Cow<str>>().ok()
+            };
+            let live2: Option<Vec<u8>> = Deserializer::from_json(&by).deserialize::<std::borrow::Cow<str>>().ok().map(|s| s.as_bytes().to_vec());
+            assert!(live2.as_deref() == late.as_ref().map(|s| s.as_bytes()), "dangling borrow: Cow<str> from Deserializer::from_json(&Bytes) changes after the deserializer is dropped");
+            let late: Option<WithLazy> = {
+                let mut d = Deserializer::from_json(fs);
+                d.deserialize::<WithLazy>().ok()
+            };
+            let live3: Option<Vec<u8>> = Deserializer::from_json(fs).deserialize::<WithLazy>().ok().map(|w| w.v.as_raw_str().as_bytes().to_vec());
+            assert!(live3.as_deref() == late.as_ref().map(|w| w.v.as_raw_str().as_bytes()), "dangling borrow: LazyValue field from Deserializer::from_json(&FastStr) changes after the deserializer is dropped");
+            drop(junk);
         }
     }
     // ---- lookups
